@@ -10,7 +10,7 @@ from .. import pb
 
 ID = "C18"
 ORACLE = "Oracle.C18"
-PROPS = "Props/C18.v"
+PROPS = ["Props/C18.v", "Props/C18gen.v"]
 LEVEL = "proof"
 SHARD = 40
 
